@@ -5,7 +5,7 @@ id=$1; pkg=$2; demo=$3
 export GOFLAGS=-mod=mod GOPROXY=off GOSUMDB=off GOTOOLCHAIN=local
 wt=/tmp/seedv_$id
 git -C /repo worktree add -f --detach $wt HEAD -q || exit 2
-cp /verif/seeded/$id/$pkg/zz_demo_test.go $wt/$pkg/
+cp /verif/seeded/$id/zz_demo_test.go $wt/$pkg/
 cd $wt
 echo "-- demo on original:"; go test -count=1 -run "$demo" ./$pkg/ 2>&1 | tail -1
 git apply /verif/seeded/$id/patch.diff || echo "PATCH DOES NOT APPLY"
